@@ -31,6 +31,10 @@ func genWhen(t *rapid.T, label string) M {
 		o.Hostile = true
 	}
 	po := gen.PatOpts{Opts: o, PropVar: rapid.IntRange(0, 3).Draw(t, label+".propvar?") == 0}
+	if rapid.IntRange(0, 5).Draw(t, label+".specialvars?") == 0 {
+		// variables named like the bindings the engine adds itself
+		po.VarPool = []string{"?x", "?location", "?event", "?ruleId"}
+	}
 	return gen.Pattern(t, po, 2, label)
 }
 
